@@ -41,7 +41,6 @@ def tinyS : Scheme where
 
 theorem tinyS_lawful : tinyS.Lawful where
   pub_inj := fun a b _ h => Subtype.ext h
-  pub_len := fun pk => ⟨Nat.lt_of_le_of_lt pk.property (by decide), (by decide : kT.length < 2 ^ 64)⟩
   key_not_reserved := fun _ =>
     (by decide : kT ≠ kId ∧ isPortKey kT = false ∧ kT ≠ kIp ∧ kT ≠ kIp6)
   pub_local := by
@@ -50,6 +49,10 @@ theorem tinyS_lawful : tinyS.Lawful where
     show tinyEnrToPublic c1 = tinyEnrToPublic c2
     unfold tinyEnrToPublic
     rw [h']
+
+/-- every toy key satisfies the per-key length bound -/
+theorem tiny_keyOK (pk : TinyPK) : KeyOK tinyS pk :=
+  ⟨Nat.lt_of_le_of_lt pk.property (by decide), (by decide : kT.length < 2 ^ 64)⟩
 
 /-- the toy signer's answers satisfy `SigOK` -/
 theorem tinySign_sigOK (pk : TinyPK) (msg : Bytes) : SigOK tinyS pk msg (some (tinySign pk msg)) := by
@@ -87,13 +90,15 @@ theorem r0_contentOK : ContentOK r0.content := by
     exact Or.inl ⟨[1, 2, 3], by decide, rfl⟩
 
 set_option maxRecDepth 8192 in
+theorem r0_pub : tinyS.enrToPublic r0.content = .ok pk0 := rfl
+
 theorem r0_valid : Valid tinyS r0 where
   seq_lt := by decide
   sig_len := by decide
   content := r0_contentOK
   id_v4 := by decide
   size_le := by decide
-  authentic := ⟨pk0, rfl, by decide, by decide⟩
+  authentic := ⟨pk0, r0_pub, by decide, by decide⟩
 
 /-- `r0` is what the builder produces from the empty builder with the toy signer -/
 theorem r0_built : Builder.build tinyS {} pk0 (some (tinySign pk0 payload0)) = .ok r0 := by
@@ -117,7 +122,7 @@ def call3 : Call tinyS := { op := .removeKey [120], pk := pk1, oracle := none }
 /-- a call answered by the toy signer is `CallOK` whenever its arguments are in range -/
 theorem callOK_tiny (r : Record) (op : Op tinyS) (pk : TinyPK) (hwf : op.WF) :
     CallOK tinyS r ⟨op, pk, (signRequest tinyS r op pk).map (tinySign pk)⟩ := by
-  refine ⟨hwf, ?_⟩
+  refine ⟨hwf, tiny_keyOK pk, ?_⟩
   intro m hm
   simp only [hm, Option.map_some]
   exact tinySign_sigOK pk m
@@ -138,7 +143,7 @@ theorem step2_ok :
   rfl
 
 theorem call3_ok (r : Record) : CallOK tinyS r call3 :=
-  ⟨trivial, fun m _ sig hs => by simp [call3] at hs⟩
+  ⟨trivial, tiny_keyOK _, fun m _ sig hs => by simp [call3] at hs⟩
 
 /-- a three-call history: own-key update, re-keying update, failed signer -/
 theorem run_ok : RunOK tinyS r0 [call1, call2 r1, call3] :=
@@ -151,13 +156,20 @@ def payloadMax : Bytes := encList (encUint (2 ^ 64 - 1) ++ Record.pairsBytes con
 def rMax : Record :=
   { seq := 2 ^ 64 - 1, nodeId := [1, 2, 3], content := content0, sig := tinySign pk0 payloadMax }
 
-set_option maxRecDepth 8192 in
 theorem rMax_valid : Valid tinyS rMax where
   seq_lt := by decide
   sig_len := by decide
   content := r0_contentOK
   id_v4 := by decide
   size_le := by decide
-  authentic := ⟨pk0, rfl, by decide, by decide⟩
+  authentic := ⟨pk0, r0_pub, by decide, by decide⟩
+
+/-- what `set_udp4(30303)` would prepare on `rMax` if its sequence number were 0 -/
+def pMax : Prepared :=
+  match prepareG tinyS { rMax with seq := 0 } (.setUdp4 30303) pk0 false with
+  | .ok p => p
+  | .error _ => ⟨rMax, .unit⟩
+
+theorem pMax_ok : prepareG tinyS { rMax with seq := 0 } (.setUdp4 30303) pk0 false = .ok pMax := rfl
 
 end EnrVerif
